@@ -79,6 +79,38 @@ Section Wf.
         negb (is_nil input) && forallb (fun s => ascendingb s && gids_ok s) input && acts_ok acts
     end.
 
+  Definition classes_wf (classes : list (list N)) : bool :=
+    forallb (fun c => negb (is_nil c) && ascendingb c && gids_ok c) classes && nodupN (concat classes).
+  Definition le_all (k : nat) (cs : list N) : bool := forallb (fun c => c <=? N.of_nat k) cs.
+
+  (* chained contextual subtables in the form the parser produces *)
+  Definition chain_wf (h : chain_sub) : bool :=
+    match h with
+    | Chain1 cov rules =>
+        negb (is_nil cov) && ascendingb cov && (length cov =? length rules)%nat && gids_ok cov
+        && forallb (fun rs => negb (is_nil rs)
+             && forallb (fun r : chain_rule =>
+                  gids_ok (fst (fst (fst r))) && gids_ok (snd (fst (fst r))) && gids_ok (snd (fst r))
+                  && acts_ok (snd r)) rs) rules
+    | Chain2 cov btc inc lac rules =>
+        ascendingb cov && gids_ok cov && classes_wf btc && classes_wf inc && classes_wf lac
+        && (length rules =? S (length inc))%nat
+        && forallb (forallb (fun r : chain_rule =>
+              le_all (length btc) (fst (fst (fst r))) && le_all (length inc) (snd (fst (fst r)))
+              && le_all (length lac) (snd (fst r)) && acts_ok (snd r))) rules
+        && negb (is_nil (concat rules))
+    | Chain3 bt input la acts =>
+        negb (is_nil input)
+        && forallb (fun s => ascendingb s && gids_ok s) bt
+        && forallb (fun s => ascendingb s && gids_ok s) input
+        && forallb (fun s => ascendingb s && gids_ok s) la && acts_ok acts
+    end.
+
+  (* no glyph is called like one of the class keywords of GSUB6 *)
+  Definition no_chain_names : bool :=
+    forallb (fun n => negb (list_eqb n K.k_inputclass) && negb (list_eqb n K.k_backtrackclass)
+                      && negb (list_eqb n K.k_lookaheadclass)) (f_names F).
+
   (* no glyph is called "class" (the word starts a class definition in GSUB5) *)
   Definition no_class_names : bool :=
     forallb (fun n => negb (list_eqb n K.k_class)) (f_names F).
@@ -86,6 +118,7 @@ Section Wf.
   (* subtables in the form the parser produces (what the language can express) *)
   Definition sub_wf (s : subtable) : bool :=
     match s with
+    | Chn h => chain_wf h
     | Ctx c => ctx_wf c
     | Gsub1_1 cov delta =>
         negb (is_nil cov) && ascendingb cov && gids_ok cov && (delta <? 65536)
@@ -114,6 +147,7 @@ Section Wf.
 
   Definition sub_type (s : subtable) : N :=
     match s with
+    | Chn _ => 6
     | Ctx _ => 5
     | Gsub1_1 _ _ | Gsub1_2 _ _ => 1
     | Gsub2_1 _ _ => 2
@@ -121,7 +155,7 @@ Section Wf.
     | Gsub4_1 _ _ => 4
     | Gpos1_1 _ _ | Gpos1_2 _ _ => 1
     end.
-  Definition is_ctx (s : subtable) : bool := match s with Ctx _ => true | _ => false end.
+  Definition is_ctx (s : subtable) : bool := match s with Ctx _ | Chn _ => true | _ => false end.
   Definition is_gpos (s : subtable) : bool :=
     match s with Gpos1_1 _ _ | Gpos1_2 _ _ => true | _ => false end.
 
@@ -138,6 +172,12 @@ Section Wf.
     && forallb (fun s => match s with Ctx c => ctx_wf c | _ => false end) (l_subs lk).
   (* GSUB1-5 *)
   Definition gsub_lookup_wf5 (lk : lookup) : bool := gsub_lookup_wf lk || ctx_lookup_wf lk.
+  (* GSUB6: one or more chained contextual subtables *)
+  Definition chain_lookup_wf (lk : lookup) : bool :=
+    flags_ok (l_flags lk) && (l_type lk =? 6) && negb (is_nil (l_subs lk))
+    && forallb (fun s => match s with Chn h => chain_wf h | _ => false end) (l_subs lk).
+  (* GSUB1-6 *)
+  Definition gsub_lookup_wf6 (lk : lookup) : bool := gsub_lookup_wf5 lk || chain_lookup_wf lk.
 
   (* GPOS1: one or more subtables *)
   Definition gpos_lookup_wf (lk : lookup) : bool :=
